@@ -23,6 +23,8 @@ impl AtomicBorrow {
     }
 
     pub fn borrow(&self) -> bool {
+        #[cfg(hecs_verif)]
+        crate::verif::yield_point(0);
         // Add one to the borrow counter
         let prev_value = self.0.fetch_add(1, Ordering::Acquire);
 
@@ -34,6 +36,8 @@ impl AtomicBorrow {
 
         // If the mutable borrow bit is set, immutable borrow can't occur. Roll back.
         if prev_value & UNIQUE_BIT != 0 {
+            #[cfg(hecs_verif)]
+            crate::verif::yield_point(1);
             self.0.fetch_sub(1, Ordering::Release);
             false
         } else {
@@ -42,20 +46,34 @@ impl AtomicBorrow {
     }
 
     pub fn borrow_mut(&self) -> bool {
+        #[cfg(hecs_verif)]
+        crate::verif::yield_point(2);
         self.0
             .compare_exchange(0, UNIQUE_BIT, Ordering::Acquire, Ordering::Relaxed)
             .is_ok()
     }
 
     pub fn release(&self) {
+        #[cfg(hecs_verif)]
+        crate::verif::yield_point(3);
         let value = self.0.fetch_sub(1, Ordering::Release);
         debug_assert!(value != 0, "unbalanced release");
         debug_assert!(value & UNIQUE_BIT == 0, "shared release of unique borrow");
     }
 
     pub fn release_mut(&self) {
+        #[cfg(hecs_verif)]
+        crate::verif::yield_point(4);
         let value = self.0.fetch_and(!UNIQUE_BIT, Ordering::Release);
         debug_assert_ne!(value & UNIQUE_BIT, 0, "unique release of shared borrow");
+    }
+}
+
+#[cfg(hecs_verif)]
+impl AtomicBorrow {
+    /// Raw value of the borrow word
+    pub fn verif_raw(&self) -> usize {
+        self.0.load(Ordering::SeqCst)
     }
 }
 
